@@ -22,6 +22,7 @@ package main
 // called by the program from inside the blocks; they see the interpreter's thread id.
 
 import (
+	"encoding/json"
 	"fmt"
 	"os"
 	"runtime"
@@ -37,6 +38,7 @@ import (
 	"github.com/krotik/ecal/interpreter"
 	"github.com/krotik/ecal/parser"
 	"github.com/krotik/ecal/stdlib"
+	"github.com/krotik/ecal/verifhook"
 )
 
 // ---------------------------------------------------------------- program trees
@@ -441,13 +443,49 @@ func c12Exec(payload string) string {
 	}
 	run.meetC = sync.NewCond(&run.meetMu)
 	c12cur = run
+	// protocol events of mutexRuntime.Eval (instrumentation points of hooks/C12.patch, if the
+	// tree has them): recorded into the same trace as the enter/exit calls
+	verifhook.SetHandler(func(point string, args ...interface{}) {
+		if !strings.HasPrefix(point, "mutex.") || len(args) < 2 {
+			return
+		}
+		tid, _ := args[0].(uint64)
+		name := fmt.Sprint(args[1])
+		tok := ""
+		switch point {
+		case "mutex.look":
+			tok = fmt.Sprintf("k%d%s%d", tid, name, args[2])
+		case "mutex.decide":
+			if re, _ := args[2].(bool); re {
+				tok = fmt.Sprintf("d%dr", tid)
+			} else {
+				tok = fmt.Sprintf("d%dl", tid)
+			}
+		case "mutex.lock":
+			tok = fmt.Sprintf("l%d", tid)
+		case "mutex.setowner":
+			tok = fmt.Sprintf("s%d", tid)
+		case "mutex.bodyend":
+			tok = fmt.Sprintf("b%d", tid)
+		case "mutex.reset":
+			tok = fmt.Sprintf("r%d", tid)
+		case "mutex.unlock":
+			tok = fmt.Sprintf("u%d", tid)
+		default:
+			return
+		}
+		run.mu.Lock()
+		run.trace = append(run.trace, tok)
+		run.mu.Unlock()
+	})
+	defer verifhook.SetHandler(nil)
 	run.fin = func() {} // set below
 
 	nSink, nDirect := 0, 0
 	switch mode {
 	case "S":
 		nSink = threads
-	case "D":
+	case "D", "G": // G = D with a debugger attached whose lock state is polled all the time
 		nDirect = threads
 	default: // M, L
 		nSink = threads / 2
@@ -500,6 +538,31 @@ func c12Exec(payload string) string {
 		}
 		doneMu.Unlock()
 	}
+
+	stopPoll := make(chan struct{})
+	var pollWg sync.WaitGroup
+	if mode == "G" {
+		// the debugger gets the owner table from every evaluated node (SetLockingState) and hands
+		// it out through LockState(), which `##status`-like commands JSON-encode
+		dbg := interpreter.NewECALDebugger(vs)
+		erp.Debugger = dbg
+		for k := 0; k < 3; k++ {
+			pollWg.Add(1)
+			go func() {
+				defer pollWg.Done()
+				for {
+					select {
+					case <-stopPoll:
+						return
+					default:
+						json.Marshal(dbg.LockState())
+						runtime.Gosched()
+					}
+				}
+			}()
+		}
+	}
+	defer func() { close(stopPoll); pollWg.Wait() }()
 
 	var oldIDs []uint64
 	if mode == "L" {
@@ -873,7 +936,7 @@ var c12Bound = 6 * time.Second
 
 func init() {
 	register("C12", &Prop{
-		Timeout: 300 * time.Second,
+		Timeout: 120 * time.Second,
 		Setup:   c12Setup,
 		Run:     c12Exec,
 		Tool:    c12Tool,
@@ -927,6 +990,25 @@ func init() {
 				emit("D", n, 3, "a!r()|c!n()")
 				emit("D", n, 3, "bn(b!b())|cn(c!e())")
 				g.Count("rendezvous")
+			}
+			// … and with sinks: as many events as workers, so all sink executions are alive at once
+			// and the order in which the workers take the events does not matter
+			for _, n := range []int{2, 4, 8, 16} {
+				emit("S", n, 1, "a!n()|b!n()")
+				emit("S", n, 1, "a!r()|c!e()")
+				emit("S", n, 1, "bn(b!b())|c!n()")
+				g.Count("rendezvous in sinks")
+			}
+			// a debugger is attached and its view of the owner table is read all the time
+			for _, n := range []int{16, 16, 16} {
+				emit("G", n, 60, "an()bn()|bn(cn())")
+				g.Count("debugger lock state polled")
+			}
+			if g.Thorough() || g.Tier == "amplified" {
+				for k := 0; k < 4; k++ {
+					emit("G", 16, 150, "an()bn()|bn(cn())")
+					g.Count("debugger lock state polled")
+				}
 			}
 			// an error / a Go panic that ENDS the thread while it holds the lock (nested too)
 			for _, mode := range []string{"D", "S", "M", "L"} {
